@@ -216,9 +216,17 @@ void error_handler (const char *err) {
         }
       else
         {
+          /* The master's handler runs applies and maybe catches of its own; leaving them clears the
+           * limit error state, which the catch that is about to receive this error must still see. */
+          int limit_state = get_error_state (ES_MAX_EVAL_COST | ES_STACK_FULL);
+
           in_mudlib_error_handler = 1;
           mudlib_error_handler (err, 1);
           in_mudlib_error_handler = 0;
+          if (limit_state & ES_MAX_EVAL_COST)
+            set_error_state (ES_MAX_EVAL_COST);
+          if (limit_state & ES_STACK_FULL)
+            set_error_state (ES_STACK_FULL);
         }
 #endif	/* LOG_CATCHES */
 
